@@ -2432,10 +2432,49 @@ def search_prunes_by_penalty_alone(prog, rep, R):
         rep.ok(R, {"penalty_tables": 0})
 
 
+# readers of TokenDecision.last_line_length that may ignore the decision's own child lines, with the reason
+LAST_LINE_READERS_REVIEWED = {
+    "find_optimal_child_lines_solution": "threads the running length from one child line to its next SIBLING: several child lines are continued on one line only in "
+                                         "variant-record field lists, where a child line that is followed by a sibling ends in `;` (a token without child lines)",
+    "<FormattingSolution as From>::from": "solution_length is informational (never compared with the limit)",
+}
+
+
+def line_end_follows_child_lines(prog, rep, R):
+    """C11.m — "if every line fits at some wrap_column, every line fits at any larger one": where a line really ends.  A token's decision
+    records the length of the line after the token (`last_line_length`) and the layouts of its child lines (`child_solutions`); when the
+    token has child lines, the line that the next token continues on is the last of THOSE (recursively).  Every function of the wrapper
+    that reads a decision's last_line_length as the place where the line goes on therefore also looks at that same decision's
+    child_solutions — otherwise the width of what follows is measured from the wrong line.  [defect #37]"""
+    TD = OLF + "types::TokenDecision"
+    from table import canon_place
+    n = 0
+    bad = []
+    for (b, bb, i, kind, st) in prog.field_accesses(TD, "last_line_length"):
+        if kind not in ("read", "ref") or not nondebug(b.npath) or "core::clone::Clone" in b.npath or "core::cmp::PartialEq" in b.npath:
+            continue
+        n += 1
+        fam = {b.npath} | {x.npath for x in prog.closures_of(b.npath)}
+        partners = [a for a in prog.field_accesses(TD, "child_solutions", within=fam) if a[3] in ("read", "ref")]
+        if partners:
+            continue
+        label = [k for k in LAST_LINE_READERS_REVIEWED if k.split("::")[0].strip("<").split(" ")[0] in b.npath]
+        if label:
+            rep.exception(R, "reviewed-reader:%s" % label[0], LAST_LINE_READERS_REVIEWED[label[0]])
+            continue
+        bad.append(b)
+    rep.check(not bad, R, "last-line-length-read-with-the-child-lines",
+              "%s reads a decision's last_line_length without looking at the child lines of that decision: when the token has child lines, the line that goes on after it is the last of those, "
+              "and what follows is measured from the wrong line" % sorted({short(x.npath) for x in bad}), where=("%s:%d" % (bad[0].file, bad[0].line)) if bad else None,
+              instance={"readers": n, "unpaired": sorted({short(x.npath) for x in bad})})
+    rep.floor(R, "readers of TokenDecision.last_line_length", n, 4)
+
+
 def check_c11(prog, rep, tier, cfg):
     child_line_memo_key_is_complete(prog, rep, "C11.h")
     search_prunes_by_penalty_alone(prog, rep, "C11.j")
     line_spanning_kinds_measured(prog, rep, "C11.k")
+    line_end_follows_child_lines(prog, rep, "C11.m")
     # C11.l — what is compared with wrap_column is measured in one unit everywhere (shared with C03.g): a line measured in characters at one
     # place and in bytes at another fits by one measure and sticks out by the other, and which one decides depends on the width
     width_measures_agree(prog, rep, "C11.l")
